@@ -98,16 +98,19 @@ namespace TAO_PEGTL_NAMESPACE
 
          void bump( const std::size_t in_count = 1 ) noexcept
          {
+            TAO_PEGTL_VERIF_ACCESS( 1, in_count, std::size_t( m_end - m_current.data ) );
             internal::bump( m_current, in_count, Eol::ch );
          }
 
          void bump_in_this_line( const std::size_t in_count = 1 ) noexcept
          {
+            TAO_PEGTL_VERIF_ACCESS( 1, in_count, std::size_t( m_end - m_current.data ) );
             internal::bump_in_this_line( m_current, in_count );
          }
 
          void bump_to_next_line( const std::size_t in_count = 1 ) noexcept
          {
+            TAO_PEGTL_VERIF_ACCESS( 1, in_count, std::size_t( m_end - m_current.data ) );
             internal::bump_to_next_line( m_current, in_count );
          }
 
@@ -190,16 +193,19 @@ namespace TAO_PEGTL_NAMESPACE
 
          void bump( const std::size_t in_count = 1 ) noexcept
          {
+            TAO_PEGTL_VERIF_ACCESS( 1, in_count, std::size_t( m_end - m_current ) );
             m_current += in_count;
          }
 
          void bump_in_this_line( const std::size_t in_count = 1 ) noexcept
          {
+            TAO_PEGTL_VERIF_ACCESS( 1, in_count, std::size_t( m_end - m_current ) );
             m_current += in_count;
          }
 
          void bump_to_next_line( const std::size_t in_count = 1 ) noexcept
          {
+            TAO_PEGTL_VERIF_ACCESS( 1, in_count, std::size_t( m_end - m_current ) );
             m_current += in_count;
          }
 
@@ -297,6 +303,7 @@ namespace TAO_PEGTL_NAMESPACE
 
       [[nodiscard]] char peek_char( const std::size_t offset = 0 ) const noexcept
       {
+         TAO_PEGTL_VERIF_ACCESS( 0, offset, std::size_t( this->end() - this->current() ) );
          return this->current()[ offset ];
       }
 
